@@ -3,6 +3,7 @@
    applies whenever they all are and the pattern matches; unsupported schemes are never matched.
    Only statements, `exact`, and Print Assumptions.  Model: C03_Model.v; tables: Generated.v. *)
 From Adb Require Import Base BaseProofs Generated C03_Model C03_Proofs.
+From Adb Require Struct_Options_Proofs.
 
 (* ---------------------------------------------------------------- check_options, any rule data *)
 (* For every mask, every pair of sorted hash arrays with unions that are absent or the OR of the
@@ -194,3 +195,11 @@ Theorem C03_ws_forces_type : forall h raw_type schema src third,
   rq_type (from_detailed_parameters h raw_type schema src third) = RT_Websocket.
 Proof. exact ws_forces_type. Qed.
 Print Assumptions C03_ws_forces_type.
+
+(* ---- check_options itself, as the translator extracts it on every run (Generated.OptsGen),
+   interpreted over the model's request and hash arrays ---- *)
+Theorem C03_src_check_options_is_model :
+  forall (m : N) (od : option (list N)) (odu : option N) (ond : option (list N)) (ondu : option N) (r : request),
+  Struct_Options_Proofs.interp_check_options m od odu ond ondu r = Some (check_options m od odu ond ondu r).
+Proof. exact Struct_Options_Proofs.interp_check_options_is_model. Qed.
+Print Assumptions C03_src_check_options_is_model.
